@@ -475,7 +475,10 @@ def run_case(ctx, case):
                     import copy
                     sm = supplied_map(attrs, version)
                     try:
-                        req = rig.encode_request(rig.build_request(version, [op_register(kind, secret, copy.deepcopy(attrs))]), version)
+                        # (some clients stamp their requests: a time a little behind the server's clock is acceptable, and is not
+                        # the time the object came into being)
+                        kw_ = {'time_stamp': clock.now - rng.choice((1, 5, 30, 59))} if rng.random() < 0.3 else {}
+                        req = rig.encode_request(rig.build_request(version, [op_register(kind, secret, copy.deepcopy(attrs))], **kw_), version)
                         rig.decode_request(req)
                     except Exception:
                         ctx.count('register_not_encodable')
@@ -503,7 +506,8 @@ def run_case(ctx, case):
                     alg, length = rng.choice(((E.CryptographicAlgorithm.AES, 256), (E.CryptographicAlgorithm.AES, 128),
                                               (E.CryptographicAlgorithm.TRIPLE_DES, 192)))
                     attrs = sym_attrs(alg, length, masks, names=names)
-                    r = srv.send([op_create(alg, length, masks, names=names)], (owner, None), version)
+                    r = srv.send([op_create(alg, length, masks, names=names)], (owner, None), version,
+                                 **({'time_stamp': clock.now - rng.choice((1, 30, 59))} if rng.random() < 0.3 else {}))
                     if r.error is None and r.ok():
                         ctx.count('objects_stored')
                         sm = supplied_map(attrs, version)
